@@ -133,6 +133,13 @@ Theorem modify_then_replace_by_any_component_frozen : forall ops1 j p name ns f,
 Proof. exact modify_replace_frozen_l. Qed.
 Print Assumptions modify_then_replace_by_any_component_frozen.
 
+(* ... and in the code: the fourth regenerated scan -- no method of PipelineBuilder assigns or deletes below a NODE object it reached from its
+   node table (self._nodes[..] / .get / .values / .items / .pop, self.node(..), self.nodes()) or below a local bound to one, nor calls
+   setattr / an in-place method on it; rebinding the table's own entry is what replace_component is specified to do *)
+Theorem builders_do_not_write_shared_nodes : shared_node_writes = [].
+Proof. exact no_shared_node_writes_l. Qed.
+Print Assumptions builders_do_not_write_shared_nodes.
+
 (* regenerated scan of the source: no component __call__ assigns through an ItemList parameter, through a local bound
    to its contents without a copy, or calls an in-place method on either *)
 Theorem components_do_not_write_itemlists : itemlist_param_writes = [].
